@@ -23,7 +23,7 @@ theorem strictlySorted_iff : ∀ l : List Nat, strictlySorted l = true ↔ l.Pai
     · rintro ⟨h, hp⟩
       exact ⟨h y (List.mem_cons_self ..), hp⟩
 
-theorem mem_insertSorted (l : List Nat) (c x : Nat) : x ∈ insertSorted l c ↔ x = c ∨ x ∈ l := by
+theorem mem_insertSorted_edges (l : List Nat) (c x : Nat) : x ∈ insertSorted l c ↔ x = c ∨ x ∈ l := by
   induction l with
   | nil => simp [insertSorted]
   | cons y ys ih =>
@@ -38,7 +38,7 @@ theorem mem_insertSorted (l : List Nat) (c x : Nat) : x ∈ insertSorted l c ↔
         · rintro (h | h | h) <;> simp [h]
 
 /-- `insertSorted_mem` of the task statement -/
-theorem insertSorted_mem (l : List Nat) (c : Nat) : c ∈ insertSorted l c := (mem_insertSorted l c c).2 (.inl rfl)
+theorem insertSorted_mem (l : List Nat) (c : Nat) : c ∈ insertSorted l c := (mem_insertSorted_edges l c c).2 (.inl rfl)
 
 theorem insertSorted_sorted {l : List Nat} (h : l.Pairwise (· < ·)) (c : Nat) :
     (insertSorted l c).Pairwise (· < ·) := by
@@ -57,7 +57,7 @@ theorem insertSorted_sorted {l : List Nat} (h : l.Pairwise (· < ·)) (c : Nat) 
       · exact List.pairwise_cons.2 h
       · next hnlt hne =>
         refine List.pairwise_cons.2 ⟨fun z hz => ?_, ih h.2⟩
-        rcases (mem_insertSorted ys c z).1 hz with rfl | hz
+        rcases (mem_insertSorted_edges ys c z).1 hz with rfl | hz
         · omega
         · exact h.1 z hz
 
@@ -362,7 +362,7 @@ theorem invEdges_iff (w : World) :
 theorem ins_edge_into_removed_is_labelled {src dst : List Nat} {c r : Nat} (hd : dst = insertSorted src c)
     (hs : r ∉ src) (hr : r ∈ dst) : c = r := by
   subst hd
-  rcases (mem_insertSorted src c r).1 hr with h | h
+  rcases (mem_insertSorted_edges src c r).1 hr with h | h
   · exact h.symm
   · exact absurd h hs
 
